@@ -11,7 +11,10 @@ Small-scope enumeration of ALL statements of a nested exception-handling grammar
 
 with at most N non-empty actions (a nested T counts as one) and nesting <= 2 (quick N=2; thorough N=3 with a
 reduced action set); try statements whose try body is empty (all handlers dead) are left out unless an else
-clause carries the action.  Statements that contain break/continue run inside `for i in (0, 1)`.  Every function is
+clause carries the action; plus the complete product of "bare raise (or return) in the finally of a try statement
+nested inside an except handler" (outer except EA / except EA as ex; inner try/finally, try/except/finally,
+try/except/else/finally; inner body raising nothing / same / subclass / other class / helper / group).
+Statements that contain break/continue run inside `for i in (0, 1)`.  Every function is
 called in two states: clean, and while an outer KeyError('outer') is being handled.  At every log point the
 harness records sys.exc_info() (type, args); after the call the propagated exception's chain (__cause__,
 __context__, __suppress_context__, sub-exceptions; type and args, recursively), the return value, and
@@ -214,10 +217,33 @@ def tag(t):
     return t[0] + '(' + ','.join(s(x) for x in t[1:]) + ')'
 
 
+def _reraise_in_nested_finally():
+    """Bare `raise` in the finally clause of a try statement that sits INSIDE an except handler (4-5 actions, beyond the
+    action bound): the re-raised exception must be the one in flight in the inner statement, not the one the enclosing
+    handler caught.  Complete product: outer try raising EA / EB caught by `except EA` / `except EA as ex`; inner
+    try/finally, try/except/finally and try/except/else/finally with the inner body raising nothing / the same class / a
+    subclass / another class / via a helper / an ExceptionGroup, the inner handler doing nothing / raising another class /
+    re-raising / returning, and the finally clause doing a bare raise (or, for contrast, a return)."""
+    out = []
+    for outer in ('te', 'tea'):
+        for ob in ('RA', 'RB'):
+            for fin in ('RR', 'RET'):
+                for b in (None, 'RA', 'RB', 'RC', 'RG', 'H'):
+                    out.append((outer, ob, ('tf', b, fin)))
+                    for h in (None, 'RC', 'RR', 'RET'):
+                        out.append((outer, ob, ('tef', b, h, fin)))
+                    out.append((outer, ob, ('teef', b, None, 'RC', fin)))
+    return out
+
+
 def _family(tier):
     fam = statements(2, 2, ACT_Q)
+    seen = set(fam)
+    for t in _reraise_in_nested_finally():
+        if t not in seen:
+            seen.add(t)
+            fam.append(t)
     if tier != 'quick':
-        seen = set(fam)
         for t in statements(3, 2, ACT_T3):
             if t not in seen:
                 fam.append(t)
